@@ -6,7 +6,7 @@ META = dict(
     engine="flo", level="model_checking",
     technique="explicit-state BFS over env-input histories of enumerated clone programs on the real Builder/Skedder vs the reference interpreter run on the de-sugared (clone = ordinary auxiliary) program; resolved relative paths per clone",
     text="Moot framers using `x of framer`, `y of frame`, `z of framer main`, `w of frame main` and an inner `aux ... as mine`, cloned 1-3 times as named "
-         "and insular clones in one or two frames, nested (a moot cloning a moot), and reared 1-3 times / razed all|first|last at run time, are "
+         "and insular clones in one or two frames, nested (a moot cloning a moot), reared 1-3 times / razed all|first|last at run time, and the same marker-waiting moot cloned under two main framers with colliding tags (writes to the absolute share as inputs), are "
          "explored through every reachable (state x env input). Oracles: every clone's per-tick recorder events, done flag, active outline and the "
          "values/stamps of every relative share equal those of the de-sugared program run by the reference interpreter (so each clone does what its "
          "original would do alone); the store paths resolved for the relative references of each clone (read from the real built acts) contain "
@@ -21,6 +21,7 @@ from mc.flo import runner
 def family():
     from mc.flo import families as F
     yield from F.fam_clones()
+    yield from F.fam_clone_markers()
 
 
 def rel_paths(prog):
@@ -84,6 +85,11 @@ def on_prog(p, idx, label, prog, meta):
                 for n in (it[2] if it[0] in ("go", "auxif") else it[1] if it[0] == "let" else []):
                     if n[0] in ("cmp", "bool"):
                         read.add(n[1])
+    if meta.get("kind") == "xwrites":
+        from mc.flo import families as F
+        runner.explore_and_check(p, idx, label, prog, mons=(), cmp=cmp, watch=watch + ("x",), canon_paths=read | {"x"},
+                                 alphabet=F.X_ALPHABET, depth=8 if core.TIER == "quick" else 12, sample_every=7)
+        return
     runner.explore_and_check(p, idx, label, prog, mons=(), cmp=cmp, watch=watch, canon_paths=read, depth=10 if core.TIER == "quick" else 14, sample_every=13,
                              outcome=lambda rr: "%d-framers/%s" % (len(rr.final["registry"]), rr.ticks[-1]["framers"][0][4] if rr.ticks else None))
 
